@@ -3,6 +3,7 @@
   Property theorems ONLY.  For ANY number of inputs, any part missing in any input at any position.
 -/
 import Kapture.Lemmas.C10
+import Kapture.Lemmas.C09
 
 namespace Kapture.C10
 open Kapture
@@ -87,5 +88,34 @@ example : mergeRenamed 1 false [none, some [(["5", "cam"], "img")]]
 example : computeNewIds [⟨some ["cam", "gps"], none⟩, ⟨none, some ["r"]⟩, ⟨some ["cam"], some ["r"]⟩] 0 0
     = [([("cam", NewId.sensor 0), ("gps", NewId.sensor 1)], []), ([], [("r", NewId.rig 0)]),
        ([("cam", NewId.sensor 2)], [("r", NewId.rig 1)])] := by decide
+
+/-- which parts merge_remap produces follows the skip list (guards regenerated from merge_remap's if-structure): sensors and rigs
+  always; every other table part exactly when its own type is not skipped (the type the tool's command line names); observations
+  exactly when neither Points3d nor Observations is skipped, 3-D points exactly when Points3d is not -/
+theorem remap_parts_follow_the_skip_list (skip : List String) :
+    (Dict.get? "sensors" Gen.MergeDispatch.remapGuards = some [[]] ∧ Dict.get? "rigs" Gen.MergeDispatch.remapGuards = some [[]]) ∧
+    (∀ attr ∈ C09.simpleAttrs.drop 2, Dict.get? attr Gen.MergeDispatch.remapGuards =
+        some [[("not-skipped", [(Dict.get? attr Gen.MergeDispatch.skipNames).getD ""])]] ∧
+      (Dict.get? attr Gen.MergeDispatch.skipNames).isSome = true) ∧
+    C09.guardHolds skip ((Dict.get? "observations" Gen.MergeDispatch.remapGuards).getD []) =
+      (!skip.contains "Points3d" && !skip.contains "Observations") ∧
+    C09.guardHolds skip ((Dict.get? "points3d" Gen.MergeDispatch.remapGuards).getD []) = !skip.contains "Points3d" := by
+  refine ⟨by decide, by decide, ?_, ?_⟩
+  · have e1 : (Dict.get? "observations" Gen.MergeDispatch.remapGuards).getD [] = [[("not-skipped", ["Points3d", "Observations"])]] := by
+      decide
+    rw [e1]
+    unfold C09.guardHolds
+    simp only [List.any_cons, List.any_nil, List.all_cons, List.all_nil, Bool.and_true, Bool.or_false]
+    generalize skip.contains "Points3d" = a
+    generalize skip.contains "Observations" = b
+    cases a <;> cases b <;> decide
+  · have e2 : (Dict.get? "points3d" Gen.MergeDispatch.remapGuards).getD [] = [[("not-skipped", ["Points3d", "Observations"])],
+        [("else-of", ["Points3d", "Observations"]), ("not-skipped", ["Points3d"])]] := by decide
+    rw [e2]
+    unfold C09.guardHolds
+    simp only [List.any_cons, List.any_nil, List.all_cons, List.all_nil, Bool.and_true, Bool.or_false]
+    generalize skip.contains "Points3d" = a
+    generalize skip.contains "Observations" = b
+    cases a <;> cases b <;> decide
 
 end Kapture.C10
